@@ -160,8 +160,23 @@ def run_c09(case):
             missing = twin.load_state_dict(net.state_dict(), strict=True)
             current = None      # specs of the most recently fixed function(s)
             last_tensor_arg = None
+            fsets = {}          # persistent function-set objects of the training path (one per pool entry)
             for op in case["history"]:
                 kind = op["op"]
+                if kind == "train":
+                    # the training path: DeepONet conditions hand a function set and the step number to
+                    # _forward_branch and then call the network without branch inputs; several conditions may
+                    # share the network with different (or the same) function sets within one step
+                    s_ = op["set"]
+                    specs = [dict(q, e=case["e"]) for q in case["train_sets"][s_]]
+                    if s_ not in fsets:
+                        fsets[s_] = function_set(case, sp, specs)
+                    net._forward_branch(fsets[s_], iteration_num=op["it"])
+                    twin.fix_branch_input(function_set(case, sp2, specs))
+                    current = specs
+                    stats["train_branch_calls"] = stats.get("train_branch_calls", 0) + 1
+                    log.append(["train", "set%d" % s_, op["it"]])
+                    continue
                 if kind == "fix" or (kind == "forward" and op.get("with_branch")):
                     specs = [dict(s, e=case["e"]) for s in op["specs"]]
                     how = op["how"]
